@@ -69,7 +69,8 @@ func VerifC09History() {
 	}
 	tbk := io.NewTimeBucketKey(key)
 	d := func(y int, m time.Month, day, h int) int64 { return time.Date(y, m, day, h, 0, 0, 0, time.UTC).Unix() }
-	slots := []int64{d(2020, 2, 29, 0), d(2020, 3, 1, 0), d(2019, 12, 31, 24-int(tfSec/3600))}
+	// (1 March 2019 and 29 February 2020 have the same interval index in different year files)
+	slots := []int64{d(2020, 2, 29, 0), d(2020, 3, 1, 0), d(2019, 12, 31, 24-int(tfSec/3600)), d(2019, 3, 1, 0)}
 	if rt.Tier() == 1 {
 		slots = append(slots, d(2020, 1, 2, 0), d(2021, 1, 2, 0))
 	}
